@@ -1062,3 +1062,15 @@ pub fn run(run: &Run) {
     let n = run.tier.pick(100_000, 1_000_000);
     run.random("random-values", n, 120, &*find_sub(&subs, "random-values").unwrap().f);
 }
+
+/// Inputs of the matrices that the documented rules accept (seed corpus for fuzzing).
+pub fn accepted_texts() -> Vec<String> {
+    let mut v: Vec<String> = text_cases().iter().filter(|t| t.expect == Some(true)).map(|t| t.text.clone()).collect();
+    let fx = fixture();
+    for (_, e) in call_cases() {
+        if typeck::filter_ok(&fx.recipe, e).is_ok() {
+            v.push(print_expr(e, &Style::plain()));
+        }
+    }
+    v
+}
